@@ -6,6 +6,7 @@ import (
 	"time"
 
 	"github.com/ostafen/clover/v2/document"
+	"github.com/ostafen/clover/v2/query"
 
 	"verif/harness/core"
 	"verif/harness/gen"
@@ -681,6 +682,88 @@ var scenarios = []scenario{
 		s.CreateCollection("vast", nil)
 		s.Count(&model.Query{Coll: "vast"})
 		s.AuditPhysical("DropCollection of 140000 documents")
+	}},
+	{"panicking-callbacks-leave-no-trace", "C06 C04 C03 C09 C20", func(s *S) {
+		// user code that panics in the middle of an operation (the caller recovers): whatever the operation had done
+		// so far - documents deleted by an updater returning nil, documents rewritten, index entries moved - is undone
+		s.twins(numDocs(9), "x", "g")
+		recovered := func(f func() error) func() error {
+			return func() (e error) {
+				defer func() {
+					if r := recover(); r != nil {
+						e = fmt.Errorf("user code panicked: %v", r)
+					}
+				}()
+				return f()
+			}
+		}
+		for _, c := range []string{"plain", "idx"} {
+			byX := query.NewQuery(c).Sort(query.SortOption{Field: "x", Direction: 1})
+			steps := []struct {
+				name string
+				f    func() error
+			}{
+				{"UpdateFunc(deletes two documents, rewrites one, then panics)", func() error {
+					k := 0
+					return s.h.DB.UpdateFunc(byX, func(d *document.Document) *document.Document {
+						k++
+						switch {
+						case k <= 2:
+							return nil
+						case k == 3:
+							n := d.Copy()
+							n.Set("x", int64(500))
+							n.Set("g", int64(9))
+							return n
+						}
+						panic("user code failed")
+					})
+				}},
+				{"Delete(MatchFunc panics at the fourth document)", func() error {
+					k := 0
+					return s.h.DB.Delete(query.NewQuery(c).MatchFunc(func(*document.Document) bool {
+						k++
+						if k == 4 {
+							panic("user code failed")
+						}
+						return true
+					}))
+				}},
+				{"UpdateById(updater panics)", func() error {
+					return s.h.DB.UpdateById(c, fixedID(2), func(*document.Document) *document.Document { panic("user code failed") })
+				}},
+				{"ForEach(consumer panics at the second document)", func() error {
+					k := 0
+					return s.h.DB.ForEach(byX, func(*document.Document) bool {
+						k++
+						if k == 2 {
+							panic("user code failed")
+						}
+						return true
+					})
+				}},
+			}
+			for _, st := range steps {
+				name := st.name + " on " + c
+				got, err := s.run(name, false, recovered(st.f))
+				if !s.expect(name, []string{EAny}, got, err) {
+					return
+				}
+				if !s.CompareCollection(c, "panic:partial-effect:"+opName(name), name) {
+					return
+				}
+				s.Count(&model.Query{Coll: c})
+				s.Count(&model.Query{Coll: c, Crit: cmpc(model.OpGtEq, "x", int64(0))})
+			}
+		}
+		s.AuditPhysical("operations abandoned by a panic in user code")
+		if s.failed {
+			return
+		}
+		s.Bulk(BulkDelete, &model.Query{Coll: "idx"}, nil)
+		s.Count(&model.Query{Coll: "idx"})
+		s.Insert("idx", numDocs(3), false)
+		s.Audit("the handle after recovered panics")
 	}},
 	{"isolation-prefix-names-shared-ids", "C13 C06", func(s *S) {
 		names := []string{"c", "cc", "c:", "coll:", "", "cx"}
